@@ -51,6 +51,26 @@ macro_rules! adapter {
                 Ok((b, rem)) if b == v && rem.is_empty() => {}
                 other => return Err(fail("fixint", format!("{}: decoding {} gave {:?}", $label, hex(&got), other), cj())),
             }
+            // through a byte reader: nothing in this struct is borrowed, so an empty scratch buffer suffices
+            let mut empty: [u8; 0] = [];
+            let via_io = no_panic(|| postcard::from_io::<$sname, _>((&got[..], &mut empty[..])).map(|(v, (rest, _))| (v, rest.len())))
+                .map_err(|p| fail("fixint", format!("from_io panicked: {}", p), cj()))?;
+            match via_io {
+                Ok((b, 0)) if b == v => {}
+                other => return Err(fail("fixint", format!("{}: decoding {} through from_io with an empty scratch buffer gave {:?}", $label, hex(&got), other), cj())),
+            }
+            let mut empty: [u8; 0] = [];
+            let via_eio = no_panic(|| postcard::from_eio::<$sname, _>((&got[..], &mut empty[..])).map(|(v, (rest, _))| (v, rest.len())))
+                .map_err(|p| fail("fixint", format!("from_eio panicked: {}", p), cj()))?;
+            match via_eio {
+                Ok((b, 0)) if b == v => {}
+                other => return Err(fail("fixint", format!("{}: decoding {} through from_eio with an empty scratch buffer gave {:?}", $label, hex(&got), other), cj())),
+            }
+            // the writer path emits the same bytes
+            let via_w = no_panic(|| postcard::to_io(&v, Vec::<u8>::new())).map_err(|p| fail("fixint", format!("to_io panicked: {}", p), cj()))?;
+            if via_w.as_deref() != Ok(&want[..]) {
+                return Err(fail("fixint", format!("{}: to_io wrote {:?}", $label, via_w.map(|b| hex(&b))), cj()));
+            }
             // one byte short of the fixed field
             let short = &got[..1 + N - 1];
             match no_panic(|| postcard::from_bytes::<$sname>(short)) {
